@@ -49,13 +49,8 @@ func (f *Cond) Call(s *slip.Scope, args slip.List, depth int) (result slip.Objec
 		if !ok || len(clause) == 0 {
 			slip.TypePanic(s, depth, "clause", a, "list")
 		}
-		test := slip.EvalArg(s, clause, 0, d2)
-		if vs, ok := test.(slip.Values); ok { // only the primary value of the test counts
-			test = nil
-			if 0 < len(vs) {
-				test = vs[0]
-			}
-		}
+		// only the primary value of the test counts
+		test := slip.Primary(slip.EvalArg(s, clause, 0, d2))
 		if test == nil {
 			continue
 		}
